@@ -158,7 +158,8 @@ static int mode_faults(const char* path, bool thorough, int shard, int nshards, 
         if ((int)(ci % (size_t)nshards) != shard) continue;
         Case& c = *valid[ci]; const Bytes& p = c.bytes; Layout L = parse_layout(p);
         vh::Rng r(vh::mix(vh::mix(seed, 0xfa17), std::hash<std::string>()(c.id)));
-        bool big = p.size() > (thorough ? 40000u : 6000u);
+        bool big = p.size() > (thorough ? 40000u : 1600u);
+        const size_t CS = thorough ? 40 : 10, RS = thorough ? 24 : 8, STRIDE = thorough ? 300 : 60;
         std::vector<Job> jobs;
         char tt = p[11] == 1 ? 't' : p[11] == 2 ? 'h' : 'p';
         auto add = [&](const std::string& sub, const std::string& kind, std::vector<Edit> es, long fa = -1, int style = 0) {
@@ -168,14 +169,14 @@ static int mode_faults(const char* path, bool thorough, int shard, int nshards, 
         // every truncation length (big files: every length in all header regions +-2, plus a stride)
         std::set<size_t> lens;
         if (!big) for (size_t k = 0; k < p.size(); ++k) lens.insert(k);
-        else { size_t nc = L.chunks.size(); size_t cstep = nc > 40 ? nc / 40 : 1;
+        else { size_t nc = L.chunks.size(); size_t cstep = nc > CS ? nc / CS : 1;
                for (size_t ci2 = 0; ci2 < nc; ++ci2) { auto& ch = L.chunks[ci2]; bool fullc = ci2 < 6 || ci2 + 3 >= nc || ci2 % cstep == 0;
                    for (long d = fullc ? -3 : 0; d <= (fullc ? 20 : 0); ++d) { long k = (long)ch.off + d; if (k >= 0 && (size_t)k < p.size()) lens.insert((size_t)k); } }
-               for (size_t k = 0; k < 64; ++k) lens.insert(k); for (size_t k = 0; k < p.size(); k += p.size() / 300 + 1) lens.insert(k); for (size_t k = p.size() > 40 ? p.size() - 40 : 0; k < p.size(); ++k) lens.insert(k); }
+               for (size_t k = 0; k < 64; ++k) lens.insert(k); for (size_t k = 0; k < p.size(); k += p.size() / STRIDE + 1) lens.insert(k); for (size_t k = p.size() > 40 ? p.size() - 40 : 0; k < p.size(); ++k) lens.insert(k); }
         std::cout << "FILE " << c.id << ' ' << p.size() << ' ' << (big ? "sampled" : "exhaustive") << ' ' << lens.size() << '\n';
         for (size_t k : lens) add("t" + std::to_string(k), "trunc", {{k, p.size() - k, Bytes()}});
         // every byte of file header / chunk headers / sub-headers x boundary values
-        size_t nreg = L.hdr_regions.size(); size_t rstep = big && nreg > 24 ? nreg / 24 : 1;
+        size_t nreg = L.hdr_regions.size(); size_t rstep = big && nreg > RS ? nreg / RS : 1;
         for (size_t ri = 0; ri < nreg; ++ri) { auto& reg = L.hdr_regions[ri];
           if (big && !(ri < 6 || ri + 2 >= nreg || ri % rstep == 0)) continue;
           for (size_t o = reg.first; o < reg.first + reg.second && o < p.size(); ++o) {
@@ -197,7 +198,7 @@ static int mode_faults(const char* path, bool thorough, int shard, int nshards, 
         if (!big) for (size_t q = 0; q < p.size(); ++q) fps.insert(q); else fps = lens;
         for (size_t q : fps) { add("r" + std::to_string(q), "readfault", {}, (long)q, 0); if (q % 5 == 0) add("rx" + std::to_string(q), "readfault-exc", {}, (long)q, 1); }
         run_jobs(jobs, std::cout);
-        (void)thorough; (void)r;
+        (void)r;
     }
     return 0;
 }
